@@ -2,6 +2,7 @@ package main
 
 import (
 	"fmt"
+	"go/ast"
 	"go/token"
 	"go/types"
 	"strings"
@@ -131,6 +132,9 @@ func (e *Exec) staticCall(callee *ssa.Function, args []Term, reach string, h *He
 	vc := e.vc
 	name := calleeName(callee)
 	hint := resName(res, "call")
+	if implicitRecvNonNil(callee) && len(args) > 0 && e.top {
+		vc.oblig("pre", shortCallee(name)+":recv", reach, not(eq(args[0].S, "0")), "method "+name+" called on a nil receiver", pos)
+	}
 	// 1. natively modelled library functions
 	if t, h2, ok := e.native(callee, name, args, reach, h, pos, hint); ok {
 		return t, h2
@@ -228,14 +232,31 @@ func (e *Exec) contractCall(con *Contract, callee *ssa.Function, name string, ar
 	if sig != nil {
 		rt = sig.Results()
 	}
+	withGhost := func(ms *ModSet) *ModSet {
+		if len(con.GhostSets) == 0 {
+			return ms
+		}
+		n := newModSet()
+		n.merge(ms)
+		for _, gs := range con.GhostSets {
+			if call, ok := gs.LHS.(*ast.CallExpr); ok {
+				if id, ok := call.Fun.(*ast.Ident); ok {
+					if so, ok := e.p.ghostFields[id.Name]; ok {
+						n.add(ghostFieldVar(e.u(), id.Name, so), 2)
+					}
+				}
+			}
+		}
+		return n
+	}
 	if con.Pure {
 		h2 = h
 	} else if con.HasAssign {
-		h2 = h.havoc(e.p.assignsModSet(e.u(), con), name)
+		h2 = h.havoc(withGhost(e.p.assignsModSet(e.u(), con)), name)
 	} else if callee != nil && len(callee.Blocks) > 0 {
-		h2 = h.havoc(e.p.modset(e.u(), callee), name)
+		h2 = h.havoc(withGhost(e.p.modset(e.u(), callee)), name)
 	} else {
-		h2 = h.havoc(e.p.externMods(e.u(), callee, name), name)
+		h2 = h.havoc(withGhost(e.p.externMods(e.u(), callee, name)), name)
 	}
 	var ret Term
 	if con.Pure && rt != nil && rt.Len() >= 1 {
